@@ -626,6 +626,8 @@ def check_totality(ctx, oid="C06.1"):
 
 
 def run(ctx):
+    from . import c08 as _c08
+    _c08.check_to_address(ctx, "C06.6")  # to_bitcoin_address hands network and version to segwit_addr unchanged (regtest stays regtest)
     check_tables(ctx)
     # no hidden state: the functions this property is about (and what they call) do not write module-level state, so a
     # verdict cannot depend on the history of earlier calls
